@@ -48,6 +48,26 @@ TITLES = [None, None, '', 'Plan 2024', 'Release: plan, v2']
 TICKS = [None, None, '1week', '10day', '']
 EXTRAS = [('owner', 'Bob "x"'), ('note', '</script>'), ('prio', 5), ('text', 'shadow'), ('tag', '<'), ('flag', True),
           ('ratio', 0.5), ('kéy', 'v'), ('link', 'a\\b')]
+# user attributes whose NAMES are the keys of a DHTMLX data entry / link entry (the renderer must not let them
+# overwrite what it computed), and near misses (which it must copy).  Names that are parameters of Task() (id,
+# name, resource, start, end, milestone, estimate, spent, parent, min_start, ...) cannot be user attributes.
+COLLIDING_NAMES = ['text', 'type', 'start_date', 'end_date', 'open', 'progress', 'css_class']
+NEAR_NAMES = ['Progress', 'progress_', '_progress', 'progres', 'progress2', 'Text', 'text_', 'TYPE', 'start_date_', 'end_dat',
+              'Open', 'parent_', 'Parent', 'css_class_', 'cssclass', 'id_', 'ID', 'Id', 'estimate_', 'Spent', 'resource_',
+              'duration', 'source', 'target', 'links', 'data', 'render', 'color', '$virtual']
+ATTR_VALUES = [75, 0, -1, 0.5, 1.5, 1e21, 'shadow', '75', '', 'true', '</script>', '"q"', True, False, None, [1, 'a'], {'k': 1},
+               'é"<']
+
+
+def gen_user_attrs(rng):
+    """1-4 user attributes, at least one with the name of a DHTMLX property"""
+    names = [rng.choice(COLLIDING_NAMES)] + rng.sample(COLLIDING_NAMES + NEAR_NAMES, rng.choice([0, 1, 2, 3]))
+    seen, res = set(), []
+    for k in names:
+        if k not in seen:
+            seen.add(k)
+            res.append([k, rng.choice(ATTR_VALUES)])
+    return res
 
 
 # the adversarial alphabet of the property text (quotes, braces, angle brackets, '$', ':', non-ASCII) with the
@@ -142,6 +162,9 @@ def gen_case(rng):
         if rng.random() < 0.3:
             for k, v in rng.sample(EXTRAS, rng.choice([1, 2])):
                 attrs.append([k, v])
+        if rng.random() < 0.3:
+            have = {k for k, _ in attrs}
+            attrs += [kv for kv in gen_user_attrs(rng) if kv[0] not in have]
         rng.shuffle(attrs)
         ms = (not has_child[i]) and rng.random() < 0.2
         tasks.append({
@@ -203,6 +226,13 @@ CORPUS = [
     C([T(1, 'A', attrs=[('gantt_section', 'QA: x')]), T(2, 'B', attrs=[('gantt_section', 'Dev')])]),  # section text with ':'
     C([T(1, 'Sum', est=('i', 8), spent=('i', 3)), T(2, 'leaf', level=1, est=('i', 8), spent=('i', 3))]),
     C([T(1, 'M', ms=True, end=BASE, est=('i', 0))], clock=BASE - DAY),
+    # --- user attributes named like the properties of a DHTMLX entry must not replace them; near misses are copied ---
+    C([T(1, 'x', est=('i', 40), spent=('i', 10), attrs=[('progress', 75), ('tracker_key', 'PRJ-1')])]),
+    C([T(1, 'all', est=('i', 40), spent=('i', 10), resource='Dev',
+         attrs=[(k, v) for k, v in zip(COLLIDING_NAMES, [75, 'milestone', '31-12-1999 00:00', 0, False, 7.5, 'evil'])]),
+       T(2, 'near', preds=[0], attrs=[(k, ATTR_VALUES[i % len(ATTR_VALUES)]) for i, k in enumerate(NEAR_NAMES)])]),
+    C([T(1, 'ended', est=('i', 8), spent=('i', 8), attrs=[('progress', -1), ('open', 'false'), ('text', None)]),
+       T(2, 'ms', ms=True, end=BASE, est=('i', 0), attrs=[('type', 'task'), ('progress', '0.5'), ('Progress', 2)])], clock=BASE + 2 * DAY),
     # --- boundary cases ---
     C([]),
     C([T(1, 'only')], clock=BASE + 400 * DAY),
@@ -478,6 +508,7 @@ def run(ctx):
     report(ctx, cases, obs, codes, py_diffs, doc_jobs, doc_codes, len(CORPUS))
     distinct = set()
     dist = {'tasks': 0, 'dependencies': 0, 'milestones': 0, 'with_sections': 0, 'nested': 0, 'hostile_names': 0,
+            'attrs_named_like_dhtmlx_properties': 0, 'attrs_near_misses': 0,
             'float_progress': 0, 'clock_before': 0, 'clock_inside': 0, 'clock_after': 0, 'documents_read_in_coq': len(doc_jobs)}
     for c in cases:
         if nontrivial(c):
@@ -489,6 +520,8 @@ def run(ctx):
         dist['with_sections'] += 1 if any(k == 'gantt_section' for t in ts for k, _ in t['attrs']) else 0
         dist['nested'] += 1 if any(t['level'] > 0 for t in ts) else 0
         dist['hostile_names'] += sum(1 for t in ts if set(t['name']) & HOSTILE)
+        dist['attrs_named_like_dhtmlx_properties'] += sum(1 for t in ts for k, _ in t['attrs'] if k in COLLIDING_NAMES)
+        dist['attrs_near_misses'] += sum(1 for t in ts for k, _ in t['attrs'] if k in NEAR_NAMES)
         dist['float_progress'] += sum(1 for t in ts if progress_repr(t['est'], t['spent']) and t['end'] >= c['clock'])
         if ts:
             lo, hi = min(t['start'] for t in ts), max(t['end'] for t in ts)
@@ -497,7 +530,7 @@ def run(ctx):
         evaluations=len(cases),
         distinct_nontrivial=len(distinct),
         rule='scheduled WBSs of 0-6 tasks (hierarchy up to depth 3, acyclic dependencies, milestones, gantt_section / '
-             'gantt_open / style attributes, user attributes, int and float estimates incl. 0 and spent > estimate, clock '
+             'gantt_open / style attributes, user attributes (also named like the DHTMLX entry properties text, type, start_date, end_date, open, progress, css_class and near misses, values of several types), int and float estimates incl. 0 and spent > estimate, clock '
              'before / on a boundary of / inside / after the task dates) with names composed from a pool of fragments with '
              'quotes, braces, angle brackets, $, :, comma, #, %, ;, backslash, control characters, non-ASCII, </script>, '
              '</div>, Mermaid arrows and gantt keywords; distinct = distinct cases having a dependency, a nested task or a '
